@@ -247,6 +247,22 @@ func (c11) Run(c *Ctx, i int) CaseResult {
 			}
 		}
 	}
+	if len(res.Fails) == 0 {
+		// planning is not affected by the requests a gateway has served: after requests that reach a multi-homed field
+		// from different parents, a probe query is planned like on a gateway that has seen nothing
+		probe := `{ me { lastName nick } allPhotos { likedBy { lastName } } }`
+		for _, warm := range []string{`{ allPhotos { likedBy { lastName } owner { lastName } } }`, `{ me { friends { lastName } } }`} {
+			f.Run(warm, "", nil, 5*time.Second)
+		}
+		fresh, err := NewFed(FixedFed(), store)
+		if err == nil {
+			pu, _, _, _ := f.Plan(probe, 5*time.Second)
+			pf, _, _, _ := fresh.Plan(probe, 5*time.Second)
+			if canonPlanText(PlanText(pu)) != canonPlanText(PlanText(pf)) {
+				bad("L0.isolation", "after other requests the gateway plans a query differently from a gateway that has seen nothing (something shared between plannings was written): "+diffHint(PlanText(pf), PlanText(pu)), PlanText(pf), PlanText(pu))
+			}
+		}
+	}
 	if len(res.Fails) == 0 && cachedPlan {
 		// requests without a persisted-query hash whose texts differ only in significant white space: each gets the
 		// answer a gateway that has seen nothing else gives
@@ -278,6 +294,28 @@ func (c11) Run(c *Ctx, i int) CaseResult {
 		res.Sample = map[string]interface{}{"query": q, "variables": reqs[0].vars, "executions": len(reqs), "outbound_calls": ncalls}
 	}
 	return res
+}
+
+// canonPlanText: the steps of a printed plan as a sorted list of blocks (the order of sibling steps is not fixed)
+func canonPlanText(s string) string {
+	var blocks []string
+	cur := ""
+	for _, line := range strings.Split(s, "\n") {
+		t := strings.TrimLeft(line, " \t")
+		if strings.HasPrefix(t, "- [") {
+			if cur != "" {
+				blocks = append(blocks, cur)
+			}
+			cur = t
+		} else if t != "" && !strings.HasPrefix(t, "scrub=") {
+			cur += "\n" + t
+		}
+	}
+	if cur != "" {
+		blocks = append(blocks, cur)
+	}
+	sort.Strings(blocks)
+	return strings.Join(blocks, "\n")
 }
 
 func init() { Runners["C11"] = c11{} }
